@@ -419,7 +419,7 @@ func genC14(tier string, rng *Rng) {
 	thorough := tier == "thorough"
 	hist := map[string]int{}
 	small := func() *fillOpt {
-		return &fillOpt{rng: rng, tricky: rng.Intn(2) == 0, pPresent: 20 + rng.Intn(40), maxSlice: 2, depthLimit: 4}
+		return &fillOpt{bigInts: true, rng: rng, tricky: rng.Intn(2) == 0, pPresent: 20 + rng.Intn(40), maxSlice: 2, depthLimit: 4}
 	}
 
 	// ---- 1. CleanSections: every subset of marker positions for every list length <= N
@@ -538,7 +538,7 @@ func genC14(tier string, rng *Rng) {
 		nJSON = 40000
 	}
 	for i := 0; i < nJSON; i++ {
-		o := &fillOpt{rng: rng, tricky: rng.Intn(2) == 0, pPresent: 20 + rng.Intn(70), maxSlice: 3, depthLimit: 5}
+		o := &fillOpt{bigInts: true, rng: rng, tricky: rng.Intn(2) == 0, pPresent: 20 + rng.Intn(70), maxSlice: 3, depthLimit: 5}
 		var t *topology.Topology
 		switch rng.Intn(4) {
 		case 0: // the fully generic filler: every field by kind
